@@ -280,6 +280,20 @@ class Scratch:
         shutil.rmtree(self.dir, ignore_errors=True)
 
 
+def param(name):
+    """a consensus / networking parameter, from wherever the package keeps or imports it (the consensus module's own
+    binding first: that is the one validation uses)"""
+    import importlib
+    for mn in ('skepticoin.consensus', 'skepticoin.params', 'skepticoin.cheating', 'skepticoin.networking.params'):
+        try:
+            mod = importlib.import_module(mn)
+        except Exception:
+            continue
+        if name in mod.__dict__:
+            return mod.__dict__[name]
+    raise AttributeError('parameter %s not found in the package' % name)
+
+
 def known_findings():
     p = os.path.join(VERIF, 'known_findings.json')
     if not os.path.exists(p):
